@@ -156,7 +156,10 @@ def axis_region(ax, n, p, e, tunit, rule):
         E = fr(e) * F
         lo, hi = s, s + E
         closed = (rule == "incl")
-    exact = fexact and representable(s) and representable(E) and representable(hi)
+    # exactness is decided per boundary: the start index only depends on the scaled position, the end
+    # index on position, extent and their sum
+    exact_lo = fexact and representable(s)
+    exact = exact_lo and representable(E) and representable(hi)
 
     def margin(q):
         return abs(q) <= 10 ** 6 and (q.denominator == 1 or abs(q - round(q)) >= Fr(1, 100))
@@ -175,8 +178,8 @@ def axis_region(ax, n, p, e, tunit, rule):
         else:
             dt, off = Fr(1), Fr(0)
             nmax = ax.get("labels") or None
-        for b in (lo, hi):
-            exact = exact and representable(b - off) and margin((b - off) / dt)
+        exact_lo = exact_lo and representable(lo - off) and margin((lo - off) / dt)
+        exact = exact and exact_lo and representable(hi - off) and margin((hi - off) / dt)
         i0 = max(0, math.floor((lo - off) / dt) - 1)
         i1 = math.floor((hi - off) / dt) + 1
         if nmax is not None:
@@ -189,15 +192,31 @@ def axis_region(ax, n, p, e, tunit, rule):
         def coord(i):
             return off + i * dt
 
+    # a start position that is bit-identical to the coordinate the descriptor itself reports for sample i
+    # (position_at(i) = i * interval + offset in binary64, no unit conversion) IS the position of that
+    # sample: it is in the region at the lower boundary although the quotient is not exact ("pinned")
+    pinned = None
+    if kind == "sampled" and F == 1 and not exact_lo:
+        dtf = float(ax["dt"])
+        offf = float(ax["off"]) if ax.get("off") else 0
+        pinned = lambda i: float(p) == i * dtf + offf  # noqa: E731
     ins, amb = [], []
     on = False
+    pins = 0
     for i in idx:
         x = coord(i)
-        tol = Fr(0) if exact else Fr(1, 10 ** 9) * (abs(x) + abs(s) + abs(E)) + spacing * Fr(1, 10 ** 7)
-        if abs(x - s) <= tol:
+        tol0 = Fr(1, 10 ** 9) * (abs(x) + abs(s) + abs(E)) + spacing * Fr(1, 10 ** 7)
+        tol_lo = Fr(0) if exact_lo else tol0
+        tol_hi = Fr(0) if exact else tol0
+        if abs(x - s) <= tol_lo:
             on = True
         inside = lo <= x and (x <= hi if closed else x < hi)
-        if not exact and (abs(x - lo) <= tol or abs(x - hi) <= tol):
+        near_lo = not exact_lo and abs(x - lo) <= tol_lo
+        near_hi = not exact and abs(x - hi) <= tol_hi
+        if near_lo and pinned is not None and pinned(i) and (point or not near_hi):
+            ins.append(i)
+            pins += 1
+        elif near_lo or near_hi:
             amb.append(i)
         elif inside:
             ins.append(i)
@@ -220,7 +239,7 @@ def axis_region(ax, n, p, e, tunit, rule):
     else:
         place = "between"
     return {"cands": cands, "exact": exact, "factor": F, "place": place, "point": point,
-            "zero": e is not None and float(e) == 0.0}
+            "zero": e is not None and float(e) == 0.0, "pinned": pins, "undecided": len(amb)}
 
 
 def expected(shape, axes, pos, ext, units, rule):
@@ -539,6 +558,10 @@ def run_case(case, ctx, bench):
         akind = case["ref"]["axes"][d]["t"]
         classes.append("axis:" + akind)
         classes.append("start:%s/%s" % (akind, r["place"]))
+        if r.get("pinned"):
+            classes.append("start-pinned-to-reported-coordinate")
+        if not r.get("exact", True) and not r.get("undecided"):
+            classes.append("tolerant-recipe-but-decided")
         if r.get("zero"):
             classes.append("axis-extent:zero")
         if r["factor"] != 1:
